@@ -8,6 +8,6 @@ theorem w1_witness : roundTrip ⟨.query, .form, false, .arr, [0x70]⟩ (.arr [[
 theorem w2_witness : roundTrip ⟨.query, .pipe, false, .arr, [0x70]⟩ (.arr []) = .ok (.arr [[]]) := by rfl
 /-- W4: cookie/form/explode=false `[]` comes back as `[""]` -/
 theorem w4_witness : roundTrip ⟨.cookie, .form, false, .arr, [0x70]⟩ (.arr []) = .ok (.arr [[]]) := by rfl
-/-- P1 (before D13): an object without fields panics in every path style -/
-theorem p1_witness : roundTrip ⟨.path, .simple, false, .obj, [0x70]⟩ (.obj []) = .panic := by rfl
+/-- P1 (D13, fixed): an object without fields is refused by the path encoder (it used to panic) -/
+theorem p1_refused : roundTrip ⟨.path, .simple, false, .obj, [0x70]⟩ (.obj []) = .encErr := by rfl
 end Codec
